@@ -9,6 +9,19 @@ HARNESS = {
     "fd_raw_record_full": dict(kind="fd", proved=True, fns=["parse_tls_raw_record"], bound="complete up to the record cap: input <= 5+16640+16 bytes (<=16 trailing bytes)"),
     "fd_encrypted_full": dict(kind="fd", proved=True, fns=["parse_tls_encrypted"], bound="complete up to the record cap: input <= 5+16640+16 bytes"),
     "fd_defrag_default": dict(kind="fd", proved=True, fns=["TlsRecordsParser::default", "TlsRecordsParser::reset", "TlsRecordsParser::defrag_in_progress"], bound="no input: discharges the assume_specification on derive(Default) used by the Verus unit"),
+    "fd_msg_ccs": dict(kind="fd", proved=True, fns=["parse_tls_message_changecipherspec"], bound="3-byte buffer, symbolic length (reads 1 byte)"),
+    "fd_msg_alert": dict(kind="fd", proved=True, fns=["parse_tls_message_alert"], bound="4-byte buffer, symbolic length (reads 2 bytes)"),
+    "leaf_msg_appdata": dict(kind="leaf", proved=False, fns=["parse_tls_message_applicationdata"], bound="input <= 6 bytes (body is length-independent: no loop, no index)"),
+    "leaf_msg_heartbeat": dict(kind="leaf", proved=False, fns=["parse_tls_message_heartbeat"], bound="input <= 8 bytes, record length u16 full domain"),
+    "leaf_prwh_heartbeat": dict(kind="leaf", proved=False, fns=["parse_tls_record_with_header (heartbeat arm)"], bound="payload <= 6 bytes, concrete content type 0x18"),
+    "leaf_prwh_appdata": dict(kind="leaf", proved=False, fns=["parse_tls_record_with_header (application-data arm)"], bound="payload <= 3 bytes, concrete content type 0x17"),
+    "shim_take": dict(kind="shim", proved=False, fns=["nom::bytes::streaming::take"], bound="input <= 6 bytes, count usize full domain"),
+    "shim_be": dict(kind="fd", proved=True, fns=["nom be_u8/be_u16/be_u24/be_u32"], bound="6-byte buffer, symbolic length (functions read <= 4 bytes)"),
+    "shim_length_data": dict(kind="shim", proved=False, fns=["nom::multi::length_data (u8/u16/u24 prefix)"], bound="input <= 6 bytes"),
+    "shim_complete": dict(kind="shim", proved=False, fns=["nom::combinator::complete"], bound="input <= 3 bytes, cheap element parser"),
+    "shim_many1": dict(kind="shim", proved=False, fns=["nom::multi::many1"], bound="input <= 4 bytes, cheap element parser (u8 elements)"),
+    "shim_many0": dict(kind="shim", proved=False, fns=["nom::multi::many0"], bound="input <= 4 bytes, cheap element parser (u8 elements)"),
+    "shim_map_parser": dict(kind="shim", proved=False, fns=["nom::combinator::map_parser"], bound="input <= 5 bytes, count usize full domain, cheap inner parser"),
 }
 for _k in range(5):
     HARNESS["fd_states_cells_%d" % _k] = dict(kind="fd", proved=True, fns=["tls_state_transition", "tls_state_transition_handshake"],
@@ -52,6 +65,27 @@ PROPS = {
         verus=["dispatch_ext"],
         kani=[],
         witness_search={"dispatch_ext": {"ext_search": True}},
+        explanation="see level_text",
+    ),
+    "C03": dict(
+        level="model_checking",
+        level_text="Container: the real parse_tls_record_with_header body (sliced from /repo each run) is proved by Verus to be, per content type, the explicit accumulate-while-Ok loop over the per-message parser (many1(complete(p))), one blob for application data, one completed heartbeat, Switch error for all other 251 types - for every payload length; consequences proved as lemmas: a whole record never answers Incomplete, empty CCS/alert payloads and malformed first messages never yield a value, alerts decode pairwise in wire order with an odd trailing byte left as remainder. This is relative to the nom combinator contracts (complete / many1), which are assumptions in Verus and bounded Kani obligations on the real nom. Leaf message parsers: Kani harnesses on the compiled code (full-domain for CCS/alert, bounded for heartbeat / application data).",
+        level_note="Trusted: nom shim contracts for complete/many1 (Kani shim_* harnesses, bounded); 'fun_of(parse_x) is the function parse_x computes' for each abstract message parser (determinism of safe, state-free code) and 'remainder is never longer than the input' (checked as is_suffix in the Kani leaves); leaf contracts ccs_post/alert_post/appdata_post are assumed in Verus and are the assertions of fd_msg_ccs / fd_msg_alert / leaf_msg_appdata. One-step == two-step parsing is decided in C02 (plaintext glue), not here.",
+        technique="contract-based deductive verification: Verus on the extracted container + Kani contract harnesses for the leaf message parsers",
+        verus=["many", "plaintext"],
+        kani=[dict(quick=["fd_msg_ccs", "fd_msg_alert", "leaf_msg_appdata", "leaf_msg_heartbeat", "leaf_prwh_heartbeat", "leaf_prwh_appdata", "shim_complete", "shim_many1"], timeout=300)],
+        paired={"many": ["leaf_prwh_heartbeat", "leaf_prwh_appdata"]},
+        explanation="see level_text",
+    ),
+    "C02": dict(
+        level="proof",
+        level_text="Unbounded deductive proof (Verus) on the real bodies of parse_tls_raw_record, parse_tls_encrypted and parse_tls_plaintext (sliced from /repo each run) of the RFC 8446 5.1 framing contract: header fields big-endian, cap 2^14+256 -> Error(TooLarge) whatever follows, Incomplete iff strict prefix with Needed == missing bytes, payload exactly the declared bytes, remainder untouched - for every input length. For plaintext the payload parser's verdict is glued on exactly (payload, header) and 'a whole record never answers Incomplete' is a lemma proved in unit `many`. Independently, Kani checks raw/encrypted on the compiled code, complete up to the cap in the thorough tier.",
+        level_note="Trusted: nom shim contracts take / map_parser / make_error (Kani shim_take, shim_map_parser on the real nom, bounded in input length, full domain in count); the derive-generated header parser is external_body in Verus and a full-domain Kani obligation (fd_record_header); R4 (const -> exec const, value PROVED == 16640), R6, R9 (closure signature made explicit + its ensures spliced; elided lifetime named). The plaintext unit assumes axiom_prwh_never_incomplete, which is lemma_record_never_incomplete of unit `many` (both run by this check).",
+        technique="contract-based deductive verification: Verus postconditions on the extracted framing functions; Kani full-domain harnesses on the compiled code",
+        verus=["frame", "plaintext", "many"],
+        kani=[dict(quick=["fd_record_header", "fd_raw_record_small", "fd_encrypted_small", "shim_take", "shim_be", "shim_map_parser", "shim_complete", "shim_many1", "leaf_prwh_heartbeat"],
+                   thorough=["fd_raw_record_full", "fd_encrypted_full"], timeout=300, timeout_thorough=1500)],
+        paired={"frame": ["fd_raw_record_small", "fd_encrypted_small"], "many": ["leaf_prwh_heartbeat", "leaf_prwh_appdata"], "plaintext": []},
         explanation="see level_text",
     ),
 }
